@@ -839,7 +839,7 @@ func Run(c *fw.Ctx) {
 			cs.Sample(map[string]any{"family": it.f.name, "params": it.p, "x": xs})
 		}
 	})
-	c.Cases("pts", c.N(3000, 40000), func(cs *fw.Case) {
+	c.Cases("pts", c.N(3000, 30000), func(cs *fw.Case) {
 		f := families[cs.Index%len(families)]
 		p := f.gen(cs.R)
 		xs := points(f, cs.R, p, 6)
@@ -853,7 +853,7 @@ func Run(c *fw.Ctx) {
 		it := dl[cs.Index]
 		quadCase(cs, it.f, it.p)
 	})
-	c.Cases("quad", c.N(640, 5000), func(cs *fw.Case) {
+	c.Cases("quad", c.N(640, 3500), func(cs *fw.Case) {
 		f := families[cs.Index%len(families)]
 		var p []float64
 		for i := 0; i < 50; i++ {
@@ -883,7 +883,7 @@ func Run(c *fw.Ctx) {
 	c.Cases("cdf.directed", len(cdl), func(cs *fw.Case) {
 		cdfCase(cs, cdl[cs.Index].f, cdl[cs.Index].p)
 	})
-	c.Cases("cdf", c.N(800, 10000), func(cs *fw.Case) {
+	c.Cases("cdf", c.N(800, 7000), func(cs *fw.Case) {
 		f := cf[cs.Index%len(cf)]
 		p := f.gen(cs.R)
 		cdfCase(cs, f, p)
@@ -906,7 +906,7 @@ func Run(c *fw.Ctx) {
 		q := sameShape(it.f, cs.R, it.p)
 		roundtripCase(cs, it.f, it.p, q, interiorPoints(it.f, cs.R, it.p, 4))
 	})
-	c.Cases("roundtrip", c.N(1200, 12000), func(cs *fw.Case) {
+	c.Cases("roundtrip", c.N(1200, 9000), func(cs *fw.Case) {
 		f := families[cs.Index%len(families)]
 		p := f.gen(cs.R)
 		q := sameShape(f, cs.R, p)
